@@ -14,6 +14,7 @@ import (
 	"bufio"
 	"net"
 	"net/http"
+	"net/url"
 
 	"github.com/gin-gonic/gin"
 )
@@ -30,6 +31,8 @@ import (
 //gosym:stub (*github.com/gin-gonic/gin.Context).AbortWithStatusJSON = StubAbortWithStatusJSON
 //gosym:stub (*github.com/gin-gonic/gin.Context).ClientIP = StubClientIP
 //gosym:stub (*github.com/gin-gonic/gin.Context).FullPath = StubFullPath
+//gosym:stub (*github.com/gin-gonic/gin.Context).GetQuery = StubGetQuery
+//gosym:stub (*github.com/gin-gonic/gin.Context).Query = StubQuery
 //gosym:stub github.com/gin-gonic/gin.New = StubNew
 //gosym:stub github.com/gin-gonic/gin.CustomRecoveryWithWriter = StubRecovery
 //gosym:stub (*github.com/gin-gonic/gin.Engine).Use = StubEngineUse
@@ -45,7 +48,7 @@ import (
 // State is what a request context recorded.
 type State struct {
 	Params  map[string]string
-	Keys    map[string]any
+	Keys    map[any]any
 	Status  int // last status written through the context (0 = none)
 	Aborted bool
 	Nexts   int
@@ -57,25 +60,25 @@ var states = map[*gin.Context]*State{}
 // NewContext builds a context for request r writing to w.
 func NewContext(r *http.Request, w gin.ResponseWriter) *gin.Context {
 	c := &gin.Context{Request: r, Writer: w}
-	states[c] = &State{Params: map[string]string{}, Keys: map[string]any{}}
+	states[c] = &State{Params: map[string]string{}, Keys: map[any]any{}}
 	return c
 }
 
 func Of(c *gin.Context) *State {
 	s := states[c]
 	if s == nil {
-		s = &State{Params: map[string]string{}, Keys: map[string]any{}}
+		s = &State{Params: map[string]string{}, Keys: map[any]any{}}
 		states[c] = s
 	}
 	return s
 }
 
 func StubParam(c *gin.Context, key string) string { return Of(c).Params[key] }
-func StubGet(c *gin.Context, key string) (any, bool) {
+func StubGet(c *gin.Context, key any) (any, bool) {
 	v, ok := Of(c).Keys[key]
 	return v, ok
 }
-func StubSet(c *gin.Context, key string, val any)  { Of(c).Keys[key] = val }
+func StubSet(c *gin.Context, key any, val any)     { Of(c).Keys[key] = val }
 func StubJSON(c *gin.Context, code int, obj any)  { s := Of(c); s.Status = code; s.Writes++ }
 func StubStatus(c *gin.Context, code int)         { Of(c).Status = code }
 func StubString(c *gin.Context, code int, format string, values ...any) {
@@ -98,6 +101,11 @@ func StubAbortWithStatusJSON(c *gin.Context, code int, obj any) {
 }
 func StubClientIP(c *gin.Context) string { return "192.0.2.1" }
 func StubFullPath(c *gin.Context) string { return "" }
+func StubGetQuery(c *gin.Context, key string) (string, bool) {
+	v, ok := Of(c).Params["?"+key]
+	return v, ok
+}
+func StubQuery(c *gin.Context, key string) string { return Of(c).Params["?"+key] }
 
 // ---------------------------------------------------------------------------
 // router event log
@@ -185,6 +193,41 @@ func StubWrapH(h http.Handler) gin.HandlerFunc         { return func(c *gin.Cont
 func StubWrapF(f http.HandlerFunc) gin.HandlerFunc     { return func(c *gin.Context) {} }
 
 // ---------------------------------------------------------------------------
+
+// IsAuthMiddleware probes a handler with a request carrying no credentials:
+// the auth middleware (and only it) aborts such a request with 401.
+func IsAuthMiddleware(h gin.HandlerFunc) bool {
+	c := NewContext(&http.Request{Method: "GET", Header: http.Header{}, URL: &url.URL{Path: "/probe"}}, NewWriter())
+	h(c)
+	s := Of(c)
+	return s.Aborted && s.Status == http.StatusUnauthorized
+}
+
+// AuthOrder summarises the event log of one engine: the index of the auth
+// middleware's Use event (-1 if none), the index of the first route-like event
+// (route / noroute / group-level use that is not the auth middleware), and
+// the number of engines that received any event.
+func AuthOrder() (authIdx, firstRoute, routes, engines int) {
+	authIdx, firstRoute = -1, -1
+	seen := map[*gin.Engine]bool{}
+	for i, e := range Events {
+		seen[e.Engine] = true
+		switch e.Kind {
+		case "use":
+			if IsAuthMiddleware(e.Handler) {
+				if authIdx < 0 {
+					authIdx = i
+				}
+			}
+		case "route", "noroute":
+			routes++
+			if firstRoute < 0 {
+				firstRoute = i
+			}
+		}
+	}
+	return authIdx, firstRoute, routes, len(seen)
+}
 
 // Writer is a recording gin.ResponseWriter.
 type Writer struct {
